@@ -54,7 +54,7 @@ checks = {
  'C20': dict(engine='c20', technique="runtime monitoring of the specifications themselves: TLC simulation mode generates random behaviours from Init/Next of each shipped .tla and evaluates the named invariants on every generated state; coverage probes (negated reachability predicates that must be refuted) show what the behaviours reached",
    text='the five .tla files are read from the working tree, run with generated cfgs (shipped constants, MaxView 1..2, every fault set the ASSUME permits) under tlc -simulate; held on K behaviours / S states, not exhaustive by design.', note='exploration only: exhaustive BFS, Apalache and TLAPS are deliberately not the deciding step (technique family); TLC itself is trusted', ref='4.20, 5.8'),
 }
-tiers_thorough_env = {'C18': 'VERIF_RACE=1 '}
+tiers_thorough_env = {'C18': 'VERIF_RACE=1 ', 'C08': 'VERIF_RACE=1 '}
 out = {"version": 1, "setup_cmd": "bin/setup",
  "hooks": {"guard": "verif", "enable": "go build -tags verif (bin/check builds every engine with it)", "baseline_off_cmd": "bin/baseline_off", "source_commits": commits, "add_only": True},
  "engines": [
